@@ -10,8 +10,8 @@ RIG=/scratch/rig-$NAME
 if [ "$PATCH" = "clean" ]; then rm -rf "$RIG"; exit 0; fi
 TIER="$1"; shift
 mkdir -p "$RIG/out"
-rsync -a --delete --exclude target --exclude .git /repo/ "$RIG/repo/"
-rsync -a --delete --exclude target /verif/harness/ "$RIG/harness/"
+rsync -rlpgoD --checksum --delete --exclude target --exclude .git /repo/ "$RIG/repo/"
+rsync -rlpgoD --checksum --delete --exclude target /verif/harness/ "$RIG/harness/"
 sed -i "s#/repo/crates#$RIG/repo/crates#g" "$RIG/harness/Cargo.toml"
 sed -i "s#/verif/target/harness#$RIG/target#" "$RIG/harness/.cargo/config.toml"
 if [ "$PATCH" != "-" ]; then
